@@ -418,6 +418,8 @@ def _special_cmp(a, b, op):
 
 def rsqrt(x, nonneg=False) -> R:
     """sqrt; nonneg=True when the caller knows the argument is a sum of squares."""
+    if hasattr(x, 'sym_sqrt'):
+        return x.sym_sqrt()
     x = R.lift(x)
     if x.special:
         return NAN if x.special in ('nan', '-inf') else INF
@@ -430,6 +432,9 @@ def rsqrt(x, nonneg=False) -> R:
 
 
 def rfn(name, *args, sign=None) -> R:
+    for a in args:
+        if hasattr(a, 'sym_fn'):
+            return a.sym_fn(name, args)
     args = [R.lift(a) for a in args]
     if any(a.special for a in args):
         raise Unsupported(f'{name} of non-finite')
